@@ -85,7 +85,10 @@ func (b *builder) processAxis(root *axisNode, flags flag, props *builderProp) (q
 		inputFlags := flagsEnum.None
 		if (flags & flagsEnum.Filter) == 0 {
 			if root.AxisType == "child" && (root.Input.Type() == nodeAxis) {
-				if input := root.Input.(*axisNode); input.AxisType == "descendant-or-self" {
+				// Only the abbreviation "//" (descendant-or-self::node()) may be merged with
+				// the child step; a node test on the input step must still be applied.
+				if input := root.Input.(*axisNode); input.AxisType == "descendant-or-self" &&
+					input.typeTest == allNode && input.LocalName == "" && input.Prefix == "" {
 					var qyGrandInput query
 					if input.Input != nil {
 						qyGrandInput, err = b.processNode(input.Input, flagsEnum.SmartDesc, props)
